@@ -390,8 +390,56 @@ def source_checksum() -> bool:
     return fin(ok)
 
 
+def generated_script() -> bool:
+    """Concrete complement: the job script generated by the real
+    CommandLineJob.prepare / PythonScriptBuilder.write lists the job's lock
+    file and hands it to TaskRunner (the runner can only protect the body
+    with the lock it is given).
+
+    post: _
+    """
+    import contextlib
+    import re
+
+    ctx = contextlib.nullcontext() if rt.concrete() else rt._notrace()
+    with ctx:
+        import experimaestro.scheduler.base as SB
+        from experimaestro import RunMode
+        from xv.env import sched
+        from xv.harness import schedlib
+        from xv.defs import deprec
+
+        schedlib.setup("replay")
+        root = rt.scratch_dir()
+        sched.reset(root)
+        ok = True
+        try:
+            xp = SB.experiment(root / "ws", "gen", run_mode=RunMode.GENERATE_ONLY)
+            xp.__enter__()
+            t = deprec.RTask(x=3)
+            t.submit()
+            job = t.__xpm__.job
+            xp.__exit__(None, None, None)
+            script = job.path / f"{job.name}.py"
+            text = script.read_text()
+            m = re.search(r"lockfiles = \[(.*?)\]", text, re.S)
+            listed = m.group(1) if m else ""
+            if job.lockpath.name not in listed:
+                rt.note("FAIL: the generated script does not list the job lock file:", listed.strip())
+                ok = False
+            if "TaskRunner(" not in text or "lockfiles).run()" not in text:
+                rt.note("FAIL: the generated script does not run the TaskRunner with the lock files")
+                ok = False
+            if (job.path / "params.json").is_file() is False:
+                ok = False
+        finally:
+            SB.experiment.CURRENT = None
+        rt.scratch_cleanup()
+    return fin(ok)
+
+
 def conditions(tier):
-    conds = []
+    conds = [{"name": "generated-script", "func": "generated_script", "shard": {}, "timeout": 120}]
     for d in (0, 1):
         for f in (0, 1):
             for p in (0, 1):
